@@ -12,6 +12,7 @@ PATHS = {
     "orins": ["or_insert", "or_insert_with"],
     "remove": ["remove", "entry_remove", "gremove"],
     "gmod": ["gmod"],
+    "replace": ["get_mut_replace", "rm_get_other_mut_replace"],
 }
 ALL_PATHS = [p for v in PATHS.values() for p in v]
 
@@ -117,7 +118,10 @@ class Gen:
         return self.r.randrange(self.nh)
 
     def withs(self):
-        return [s for s in range(self.S) if self.r.random() < 0.5]
+        w = [s for s in range(self.S) if self.r.random() < 0.5]
+        if w and self.r.random() < 0.15:
+            w.append(self.r.choice(w))          # the same component type twice in one builder chain (the later one wins)
+        return w
 
     def _kill(self, k):
         if k in self.live or k in self.doomed:
@@ -416,9 +420,17 @@ def gen_churn_scripts(seed, n, tid0, kinds=None):
             cut = rng.randint(nb // 2, nb - 3)
             for h in hs[cut:cut + 6]:
                 emit({"o": "sop", "path": rng.choice(PATHS["insert"]), "s": rng.randrange(S), "h": h}, None)
-            emit({"o": "delete_batch", "hs": hs[:cut]}, ("batch", hs[:cut]))
+            if i % 2:
+                # mass unload: everything of the batch except a few of its lowest indices goes at once
+                gone = sorted(hs)[rng.randint(0, 3):]
+                rng.shuffle(gone)
+                emit({"o": "delete_batch", "hs": gone}, ("batch", gone))
+            else:
+                emit({"o": "delete_batch", "hs": hs[:cut]}, ("batch", hs[:cut]))
             emit({"o": "maintain"}, ("maintain", None))
-            emit({"o": "create_iter", "n": rng.randint(2, 5)}, ("newn", None))
+            emit({"o": rng.choice(["create_iter", "ecreate_iter"]), "n": rng.randint(2, 5)}, ("newn", None))
+            emit({"o": "maintain"}, ("maintain", None))
+            emit({"o": "create_iter", "n": rng.randint(1, 3)}, ("newn", None))
         for _ in range(40):
             op, eff = g.simple_op()
             if op is None or ("h" in op and op["h"] is None) or ("hs" in op and any(v is None for v in op["hs"])):
@@ -461,7 +473,7 @@ def kind_churn_scripts(seed, per_kind, n_ops, tid0, kinds=None, far=False):
                 elif x < 0.80:
                     ops.append({"o": "sop", "path": rng.choice(PATHS["read"]), "s": 0, "h": h})
                 elif x < 0.88:
-                    ops.append({"o": "sop", "path": rng.choice(PATHS["write"] + ["gmod"]), "s": 0, "h": h, "w": rng.random() < 0.8})
+                    ops.append({"o": "sop", "path": rng.choice(PATHS["write"] + ["gmod"] + PATHS["replace"]), "s": 0, "h": h, "w": rng.random() < 0.8})
                 elif x < 0.91:
                     ops.append({"o": "wop", "k": "joinmut", "s": 0, "v": rng.choice(["join", "lend", "par"]), "sel": 0xffff, "wsel": rng.randrange(1 << 16)})
                 elif x < 0.97:
